@@ -121,6 +121,13 @@ def run_e2e(case):
     d2 = F.make_dm(mol, "D2", case["seed"])
     evals = 0
     # (a) closed shell
+    if "FL" in case["fam"]:
+        # models with fractional-Laplacian features: whether the integrator can evaluate them at all is C01's matter
+        # (recorded there as a known finding); the spin relations apply as soon as it returns numbers
+        try:
+            n1, e1, v1 = F.nr(ks1, d1)
+        except Exception as e:
+            return {"fail": [], "evals": 1, "outcome": "cannot-evaluate:%s" % type(e).__name__}
     n1, e1, v1 = F.nr(ks1, d1)
     n2, e2, v2 = F.nr(ks2, np.array([0.5 * d1, 0.5 * d1]))
     evals += 2
